@@ -57,7 +57,7 @@ theorem edgeRecords_eq {m : KV} {f : List String} {a : AG} (h : Inv m f a) (g ei
       | none => simp [hd] at hget
       | some data =>
         simp only [hd, Option.map_some, Option.some.injEq] at hget
-        exact ⟨data, hget.symm, edgeAt_some_iff.1 hd⟩
+        exact ⟨s, d, l, data, ⟨⟨rfl, rfl, rfl, rfl, rfl⟩, hget.symm⟩, edgeAt_some_iff.1 hd⟩
     · rintro ⟨s', d', l', data, ⟨⟨rfl, rfl, rfl, rfl, rfl⟩, rfl⟩, hr⟩
       refine ⟨?_, rfl, rfl⟩
       rw [h.edge, edgeAt_some_iff.2 hr]; rfl
@@ -179,10 +179,26 @@ theorem hasGraph_iff {s : KState} {a : AG} (h : Refines s a) (g : String) :
   rw [hasGraph, KV.has_eq, Bool.eq_iff_iff]
   simpa using h.inv.graph g
 
+theorem step_delE (s : KState) (g eid : String) :
+    step s (.delE g eid) =
+      if !hasGraph s g then (s, .err) else
+      match lastByBytes (edgeRecords s.kv g eid) with
+      | none => (s, .err)
+      | some (.edge _ _ sid did l, _) =>
+        (({ s with kv := ((s.kv.del (.edge g eid sid did l)).del (.src g sid did eid l)).del (.dst g did sid eid l) }).touch g, .ok)
+      | some _ => (s, .err) := rfl
+
+theorem specStep_delE (a : AG) (g eid : String) :
+    specStep a (.delE g eid) =
+      if !a.graphs.contains g then (a, .err) else
+      match a.getE g eid with
+      | none => (a, .err)
+      | some _ => ({ (a.touch g) with edges := a.edges.filter (fun p => ¬ p.1 = (g, eid)) }, .ok) := rfl
+
 theorem delE_refines {s : KState} {a : AG} (h : Refines s a) (g eid : String) :
     Refines (step s (.delE g eid)).1 (specStep a (.delE g eid)).1 ∧
       (step s (.delE g eid)).2 = (specStep a (.delE g eid)).2 := by
-  unfold step specStep
+  rw [step_delE, specStep_delE]
   rw [hasGraph_iff h, edgeRecords_eq h.inv]
   cases hgc : a.graphs.contains g with
   | false => simp [h]
@@ -214,8 +230,7 @@ def inKeys (m : KV) (g id : String) : List (List SKey) :=
 theorem step_delV (s : KState) (g id : String) :
     step s (.delV g id) =
       if !hasGraph s g then (s, .err) else
-      (({ s with kv := ((outKeys s.kv g id).flatten ++ (inKeys s.kv g id).flatten).foldl
-          (fun (m : KV) k => m.del k) (s.kv.del (.vertex g id)) }).touch g, .ok) := rfl
+      (({ s with kv := List.foldl (fun (m : KV) k => m.del k) (s.kv.del (.vertex g id)) ((outKeys s.kv g id).flatten ++ (inKeys s.kv g id).flatten) }).touch g, .ok) := rfl
 
 theorem mem_outKeys {m : KV} {g id : String} {k : SKey} :
     k ∈ (outKeys m g id).flatten ↔
@@ -264,81 +279,180 @@ def delVKey (g id : String) : SKey → Bool
 theorem get_delV {m : KV} {f : List String} {a : AG} (h : Inv m f a) (g id : String) (k : SKey) :
     (((outKeys m g id).flatten ++ (inKeys m g id).flatten).foldl (fun (m : KV) k => m.del k)
       (m.del (.vertex g id))).get k = if delVKey g id k then none else m.get k := by
-  rw [KV.get_foldl_del, KV.get_del, List.mem_append, mem_outKeys, mem_inKeys]
+  rw [KV.get_foldl_del, KV.get_del]
   have hs : ∀ s d eid l, (m.get (.src g s d eid l)).isSome = (edgeAt a g eid s d l).isSome := by
     intro s d eid l; rw [h.src]; simp
   have hd : ∀ d s eid l, (m.get (.dst g d s eid l)).isSome = (edgeAt a g eid s d l).isSome := by
     intro d s eid l; rw [h.dst]; simp
-  simp only [hs, hd]
-  cases k with
-  | vertex g' id' => simp [delVKey]
-  | graph _ => simp [delVKey]
-  | field _ => simp [delVKey]
-  | term _ _ => simp [delVKey]
-  | entry _ _ _ => simp [delVKey]
-  | doc _ => simp [delVKey]
-  | edge g' eid s d l =>
-    simp only [reduceCtorEq, SKey.edge.injEq, false_or, ↓reduceIte, delVKey, Bool.decide_and,
-      Bool.decide_or, Bool.and_eq_true, decide_eq_true_eq, Bool.or_eq_true]
-    by_cases c : g' = g ∧ (s = id ∨ d = id)
-    · rw [if_pos c]
-      split
-      · rfl
-      · rename_i hno
-        obtain ⟨rfl, c⟩ := c
-        rw [h.edge]
-        cases he : edgeAt a g' eid s d l with
-        | none => rfl
-        | some data =>
-          exfalso; apply hno
-          rcases c with rfl | rfl
-          · exact Or.inl ⟨d, eid, l, by simp [he], rfl, rfl, rfl, rfl, rfl⟩
-          · exact Or.inr ⟨s, eid, l, by simp [he], rfl, rfl, rfl, rfl, rfl⟩
-    · rw [if_neg c, if_neg]
-      rintro (⟨d', eid', l', _, rfl, rfl, rfl, rfl, rfl⟩ | ⟨s', eid', l', _, rfl, rfl, rfl, rfl, rfl⟩)
-      · exact c ⟨rfl, Or.inl rfl⟩
-      · exact c ⟨rfl, Or.inr rfl⟩
-  | src g' s d eid l =>
-    simp only [reduceCtorEq, SKey.src.injEq, or_false, ↓reduceIte, delVKey, Bool.decide_and,
-      Bool.decide_or, Bool.and_eq_true, decide_eq_true_eq, Bool.or_eq_true]
-    by_cases c : g' = g ∧ (s = id ∨ d = id)
-    · rw [if_pos c]
-      split
-      · rfl
-      · rename_i hno
-        obtain ⟨rfl, c⟩ := c
-        rw [h.src]
-        cases he : edgeAt a g' eid s d l with
-        | none => rfl
-        | some data =>
-          exfalso; apply hno
-          rcases c with rfl | rfl
-          · exact Or.inl ⟨d, eid, l, by simp [he], rfl, rfl, rfl, rfl, rfl⟩
-          · exact Or.inr ⟨s, eid, l, by simp [he], rfl, rfl, rfl, rfl, rfl⟩
-    · rw [if_neg c, if_neg]
-      rintro (⟨d', eid', l', _, rfl, rfl, rfl, rfl, rfl⟩ | ⟨s', eid', l', _, rfl, rfl, rfl, rfl, rfl⟩)
-      · exact c ⟨rfl, Or.inl rfl⟩
-      · exact c ⟨rfl, Or.inr rfl⟩
-  | dst g' d s eid l =>
-    simp only [reduceCtorEq, SKey.dst.injEq, false_or, or_false, ↓reduceIte, delVKey, Bool.decide_and,
-      Bool.decide_or, Bool.and_eq_true, decide_eq_true_eq, Bool.or_eq_true]
-    by_cases c : g' = g ∧ (s = id ∨ d = id)
-    · rw [if_pos c]
-      split
-      · rfl
-      · rename_i hno
-        obtain ⟨rfl, c⟩ := c
-        rw [h.dst]
-        cases he : edgeAt a g' eid s d l with
-        | none => rfl
-        | some data =>
-          exfalso; apply hno
-          rcases c with rfl | rfl
-          · exact Or.inl ⟨d, eid, l, by simp [he], rfl, rfl, rfl, rfl, rfl⟩
-          · exact Or.inr ⟨s, eid, l, by simp [he], rfl, rfl, rfl, rfl, rfl⟩
-    · rw [if_neg c, if_neg]
-      rintro (⟨d', eid', l', _, rfl, rfl, rfl, rfl, rfl⟩ | ⟨s', eid', l', _, rfl, rfl, rfl, rfl, rfl⟩)
-      · exact c ⟨rfl, Or.inl rfl⟩
-      · exact c ⟨rfl, Or.inr rfl⟩
+  have hK : ∀ k, k ∈ (outKeys m g id).flatten ++ (inKeys m g id).flatten ↔
+      (∃ d eid l, (edgeAt a g eid id d l).isSome ∧
+        (k = .src g id d eid l ∨ k = .dst g d id eid l ∨ k = .edge g eid id d l)) ∨
+      (∃ s eid l, (edgeAt a g eid s id l).isSome ∧
+        (k = .src g s id eid l ∨ k = .dst g id s eid l ∨ k = .edge g eid s id l)) := by
+    intro k; rw [List.mem_append, mem_outKeys, mem_inKeys]; simp only [hs, hd]
+  have hA : k ∈ (outKeys m g id).flatten ++ (inKeys m g id).flatten → delVKey g id k = true := by
+    rw [hK]
+    rintro (⟨d, eid, l, _, rfl | rfl | rfl⟩ | ⟨s, eid, l, _, rfl | rfl | rfl⟩) <;> simp [delVKey]
+  have hB : delVKey g id k = true → ¬ k ∈ (outKeys m g id).flatten ++ (inKeys m g id).flatten →
+      k ≠ .vertex g id → m.get k = none := by
+    intro hdk hnk hne
+    cases k with
+    | vertex g' id' =>
+      simp only [delVKey, Bool.decide_and, Bool.and_eq_true, decide_eq_true_eq] at hdk
+      exact absurd (by rw [hdk.1, hdk.2]) hne
+    | edge g' eid s d l =>
+      simp only [delVKey, Bool.decide_and, Bool.decide_or, Bool.and_eq_true, decide_eq_true_eq,
+        Bool.or_eq_true] at hdk
+      obtain ⟨rfl, c⟩ := hdk
+      rw [h.edge]
+      cases he : edgeAt a g' eid s d l with
+      | none => rfl
+      | some data =>
+        exfalso; apply hnk; rw [hK]
+        rcases c with rfl | rfl
+        · exact Or.inl ⟨d, eid, l, by simp [he], Or.inr (Or.inr rfl)⟩
+        · exact Or.inr ⟨s, eid, l, by simp [he], Or.inr (Or.inr rfl)⟩
+    | src g' s d eid l =>
+      simp only [delVKey, Bool.decide_and, Bool.decide_or, Bool.and_eq_true, decide_eq_true_eq,
+        Bool.or_eq_true] at hdk
+      obtain ⟨rfl, c⟩ := hdk
+      rw [h.src]
+      cases he : edgeAt a g' eid s d l with
+      | none => rfl
+      | some data =>
+        exfalso; apply hnk; rw [hK]
+        rcases c with rfl | rfl
+        · exact Or.inl ⟨d, eid, l, by simp [he], Or.inl rfl⟩
+        · exact Or.inr ⟨s, eid, l, by simp [he], Or.inl rfl⟩
+    | dst g' d s eid l =>
+      simp only [delVKey, Bool.decide_and, Bool.decide_or, Bool.and_eq_true, decide_eq_true_eq,
+        Bool.or_eq_true] at hdk
+      obtain ⟨rfl, c⟩ := hdk
+      rw [h.dst]
+      cases he : edgeAt a g' eid s d l with
+      | none => rfl
+      | some data =>
+        exfalso; apply hnk; rw [hK]
+        rcases c with rfl | rfl
+        · exact Or.inl ⟨d, eid, l, by simp [he], Or.inr (Or.inl rfl)⟩
+        · exact Or.inr ⟨s, eid, l, by simp [he], Or.inr (Or.inl rfl)⟩
+    | graph _ => simp [delVKey] at hdk
+    | field _ => simp [delVKey] at hdk
+    | term _ _ => simp [delVKey] at hdk
+    | entry _ _ _ => simp [delVKey] at hdk
+    | doc _ => simp [delVKey] at hdk
+  by_cases hk : k ∈ (outKeys m g id).flatten ++ (inKeys m g id).flatten
+  · rw [if_pos hk, if_pos (hA hk)]
+  · rw [if_neg hk]
+    by_cases hv : k = .vertex g id
+    · subst hv; simp [delVKey]
+    · rw [if_neg hv]
+      by_cases hdk : delVKey g id k = true
+      · rw [if_pos hdk]; exact hB hdk hk hv
+      · rw [if_neg hdk]
+
+theorem getV_delV {a : AG} (g id g' id' : String) :
+    alGet (a.verts.filter (fun p => ¬ p.1 = (g, id))) (g', id') =
+      if (g', id') = (g, id) then none else a.getV g' id' := by
+  have := alGet_filter_key a.verts (fun k => !decide (k = (g, id))) (g', id')
+  rw [AG.getV_eq]
+  by_cases e : (g', id') = (g, id)
+  · simp only [e, decide_true, Bool.not_true, Bool.false_eq_true, ↓reduceIte] at this ⊢
+    rw [← this]; congr 2; funext p; simp
+  · simp only [e, decide_false, Bool.not_false, ↓reduceIte] at this ⊢
+    rw [← this]; congr 2; funext p; simp
+
+theorem delV_inv {m : KV} {f : List String} {a b : AG} (h : Inv m f a) (g id : String)
+    (hbg : b.graphs = a.graphs)
+    (hbv : b.verts = a.verts.filter (fun p => ¬ p.1 = (g, id)))
+    (hbe : b.edges = a.edges.filter (fun p => ¬ (p.1.1 = g ∧ (p.2.frm = id ∨ p.2.to = id)))) :
+    Inv (((outKeys m g id).flatten ++ (inKeys m g id).flatten).foldl (fun (m : KV) k => m.del k)
+      (m.del (.vertex g id))) f b := by
+  have e1 : ∀ g' id', b.getV g' id' = if (g', id') = (g, id) then none else a.getV g' id' := by
+    intro g' id'; rw [← getV_delV, AG.getV_eq, hbv]
+  have e2 : ∀ g' eid, b.getE g' eid =
+      (a.getE g' eid).filter (fun r => decide (¬ (g' = g ∧ (r.frm = id ∨ r.to = id)))) := by
+    intro g' eid
+    rw [AG.getE_eq, hbe, alGet_filter h.enodup, AG.getE_eq]
+  have e3 : ∀ g' eid s d l, edgeAt b g' eid s d l =
+      if g' = g ∧ (s = id ∨ d = id) then none else edgeAt a g' eid s d l := by
+    intro g' eid s d l
+    unfold edgeAt
+    rw [e2]
+    cases a.getE g' eid with
+    | none => simp
+    | some r =>
+      simp only [Option.filter, Option.bind_some]
+      by_cases c : g' = g ∧ (s = id ∨ d = id)
+      · rw [if_pos c]
+        by_cases c2 : r.frm = s ∧ r.to = d ∧ r.label = l
+        · obtain ⟨rfl, rfl, rfl⟩ := c2; simp [c]
+        · split <;> simp [c2]
+      · rw [if_neg c]
+        by_cases c2 : r.frm = s ∧ r.to = d ∧ r.label = l
+        · obtain ⟨rfl, rfl, rfl⟩ := c2; simp [c]
+        · split <;> simp [c2]
+  constructor
+  · exact KV.nodup_foldl_del _ (KV.nodup_del h.nodup _)
+  · rw [hbv]; exact h.vnodup.filter _
+  · rw [hbe]; exact h.enodup.filter _
+  · intro g'; rw [hbg, get_delV h]; simp only [delVKey, Bool.false_eq_true, ↓reduceIte]; exact h.graph g'
+  · intro g' id'
+    rw [e1, get_delV h, h.vertex]
+    by_cases c : g' = g ∧ id' = id <;> simp [delVKey, c]
+  · intro g' eid s d l
+    rw [e3, get_delV h, h.edge]
+    by_cases c : g' = g ∧ (s = id ∨ d = id) <;> simp [delVKey, c]
+  · intro g' s d eid l
+    rw [e3, get_delV h, h.src]
+    by_cases c : g' = g ∧ (s = id ∨ d = id) <;> simp [delVKey, c]
+  · intro g' d s eid l
+    rw [e3, get_delV h, h.dst]
+    by_cases c : g' = g ∧ (s = id ∨ d = id) <;> simp [delVKey, c]
+  · intro g' hg'; rw [hbg] at hg'; exact h.gname g' hg'
+  · intro g' id' r hr
+    rw [e1] at hr; rw [hbg]
+    split at hr
+    · simp at hr
+    · exact h.vgraph g' id' r hr
+  · intro g' eid r hr
+    rw [e2] at hr; rw [hbg]
+    exact h.egraph g' eid r (Option.filter_eq_some_iff.1 hr).1
+  · intro g' hg'; rw [hbg] at hg'
+    rw [get_delV h]; simp only [delVKey, Bool.false_eq_true, ↓reduceIte]; exact h.fieldsV g' hg'
+  · intro g' hg'; rw [hbg] at hg'
+    rw [get_delV h]; simp only [delVKey, Bool.false_eq_true, ↓reduceIte]; exact h.fieldsE g' hg'
+  · intro g' id' r hr
+    rw [e1] at hr
+    split at hr
+    · simp at hr
+    · rw [get_delV h, get_delV h]; simp only [delVKey, Bool.false_eq_true, ↓reduceIte]
+      exact h.vindex g' id' r hr
+  · intro g' eid r hr
+    rw [e2] at hr
+    rw [get_delV h, get_delV h]; simp only [delVKey, Bool.false_eq_true, ↓reduceIte]
+    exact h.eindex g' eid r (Option.filter_eq_some_iff.1 hr).1
+
+theorem specStep_delV (a : AG) (g id : String) :
+    specStep a (.delV g id) =
+      if !a.graphs.contains g then (a, .err) else
+      ({ (a.touch g) with verts := a.verts.filter (fun p => ¬ p.1 = (g, id)),
+                          edges := a.edges.filter (fun p => ¬ (p.1.1 = g ∧ (p.2.frm = id ∨ p.2.to = id))) }, .ok) := rfl
+
+theorem delV_refines {s : KState} {a : AG} (h : Refines s a) (g id : String) :
+    Refines (step s (.delV g id)).1 (specStep a (.delV g id)).1 ∧
+      (step s (.delV g id)).2 = (specStep a (.delV g id)).2 := by
+  rw [step_delV, specStep_delV, hasGraph_iff h]
+  cases hgc : a.graphs.contains g with
+  | false => simp [h]
+  | true =>
+    simp only [Bool.not_true, Bool.false_eq_true, ↓reduceIte, and_true]
+    have base : Refines { s with kv := (List.foldl (fun (m : KV) k => m.del k) (s.kv.del (.vertex g id))
+          ((outKeys s.kv g id).flatten ++ (inKeys s.kv g id).flatten)) }
+        { a with verts := a.verts.filter (fun p => ¬ p.1 = (g, id)),
+                 edges := a.edges.filter (fun p => ¬ (p.1.1 = g ∧ (p.2.frm = id ∨ p.2.to = id))) } :=
+      ⟨delV_inv h.inv g id rfl rfl rfl, h.stamps, h.clock, h.stampLe⟩
+    have ht := touch_refines base g
+    exact ⟨inv_congr ht.inv rfl rfl rfl, ht.stamps, ht.clock, ht.stampLe⟩
 
 end Grip.Props.C03.Lemmas
